@@ -325,12 +325,9 @@ def compare(it, op, a, b, node):
         elif isinstance(a, VConst) and isinstance(b, VConst):
             r = a.value is b.value
         elif isinstance(a, VTens) and isinstance(b, VTens):
-            if a is b:
-                r = True
-            elif a.obj is not b.obj:
-                r = False
-            else:
-                r = None
+            # python object identity: a view of a tensor is another object (a wrapper is created per tensor object,
+            # and handed around unchanged by assignment, argument passing and the identity-returning methods)
+            r = a is b
         elif isinstance(a, VExt) and isinstance(b, VExt):
             r = a.name == b.name
         elif isinstance(a, VObj) and isinstance(b, VObj):
@@ -426,6 +423,9 @@ def num_compare(op, a, b):
     d = (ta - tb).const_value()
     if d is not None:
         return _CMP[op](d, 0)
+    aa, ab = ta.single_atom(), tb.single_atom()
+    if op in ("Eq", "NotEq") and isinstance(aa, T.Sym) and isinstance(ab, T.Sym) and aa.name.startswith("ptr:S") and ab.name.startswith("ptr:S") and "?" not in aa.name + ab.name:
+        return (aa.name == ab.name) == (op == "Eq")  # separately allocated storages never coincide
     # a selection count never exceeds the length of the axis it was selected from (DIM_BOUNDS: count symbol -> that length)
     for x, y, flip in ((ta, tb, False), (tb, ta, True)):
         ax = x.single_atom()
